@@ -59,6 +59,21 @@ class Built:
 def path_list(info):
     return info.path.as_list() if hasattr(info.path, "as_list") else list(info.path or [])
 
+def _alias_equal_items(val, depth=0):
+    """items of a list that are EQUAL records become ONE object (application code often hands out the same instance several
+    times): what is computed for one position of a list may not be reused for another"""
+    if depth > 6: return
+    if isinstance(val, list):
+        seen = []
+        for i, x in enumerate(val):
+            if isinstance(x, dict) and x:
+                for y in seen:
+                    if y == x: val[i] = y; break
+                else: seen.append(x)
+        for x in val: _alias_equal_items(x, depth + 1)
+    elif isinstance(val, dict):
+        for x in val.values(): _alias_equal_items(x, depth + 1)
+
 def make_resolver(built, coord, spec):
     kind = spec["k"]
     async def resolver(parent, args, ctx, info):
@@ -87,7 +102,10 @@ def make_resolver(built, coord, spec):
                 ctx["n_seen"] = ctx.get("n_seen", 0) + 1
                 return f"seen{ctx['n_seen']}"
             return "seen0"
-        if kind == "const": return dec(spec["v"])
+        if kind == "const":
+            val = dec(spec["v"])
+            _alias_equal_items(val)
+            return val
         if kind == "raise": raise dec(spec["v"])
         if kind == "raiseShared":
             # ONE exception instance (a module-level constant in application code) raised by every call of this resolver
